@@ -481,6 +481,9 @@ async fn step_inner(w: &mut World, l: &[Tok], start: SystemTime) -> Vec<Vec<Tok>
             if let Some((_, a)) = w.provs.get(h as usize) {
                 a.store(false, Ordering::SeqCst);
             }
+            // a provider behind the in-process OpenProviderStream handler goes away by dropping its response stream:
+            // the handler's Provider then reports itself unavailable (sender closed), at once
+            w.lazy.retain(|l| l.handle != h as usize);
             vec![vec![0]]
         }
         9 => {
